@@ -2,7 +2,7 @@
 import itertools
 
 PID = "C09"
-CASE_LIMIT = {"C09": 15}   # seconds: these cases are function calls, not sessions
+CASE_LIMIT = {"C09": 60}   # seconds: these cases are function calls, not sessions
 RULE = ("combining frame: exhaustive over all key sequences of length <= 5 (quick) / <= 7 (thorough) over a 5-key alphabet on "
         "tables of initial capacity 1 and 8 with scratch 1 and 2, compacted at the end and once in the middle; random op "
         "sequences combine/compact with capacities {1,2,4,8,16}, scratch {1,2,3,8}, up to 60 rows, Zipf-like keys; "
